@@ -1154,6 +1154,19 @@ class OFConnection (object):
 
   def read (self, io_worker):
     #FIXME: Do we need to pass io_worker here?
+    if getattr(self, '_in_read', False):
+      # We got here from inside a handler or from inside send() (a peer
+      # wired to us back to back answering at once).  The call that is
+      # already under way picks the new bytes up when it goes on; starting
+      # over here would look at a message that is being dealt with.
+      return True
+    self._in_read = True
+    try:
+      return self._read(io_worker)
+    finally:
+      self._in_read = False
+
+  def _read (self, io_worker):
     while True:
       message = io_worker.peek()
       if len(message) < 4:
